@@ -83,7 +83,7 @@ def pcapng_block(btype, body, e="<"):
     return struct.pack(e + "II", btype, total) + _pad4(body) + struct.pack(e + "I", total)
 
 
-def write_pcapng(path, items, *, endian="<", tsresol=6, tsoffset=0, snaplen=0, offset_first=False):
+def write_pcapng(path, items, *, endian="<", tsresol=6, tsoffset=0, snaplen=0, offset_first=False, pre_idb=()):
     """items: list of ('pkt', ts_us:int, frame) | ('dsb', text_bytes) | ('raw', btype, body)
     ts_us is integer microseconds since epoch; converted exactly to the chosen resolution when possible."""
     e = endian
@@ -97,6 +97,11 @@ def write_pcapng(path, items, *, endian="<", tsresol=6, tsoffset=0, snaplen=0, o
     if opts:
         opts += struct.pack(e + "HH", 0, 0)
     idb = struct.pack(e + "HHI", 1, 0, snaplen) + opts
+    for it in pre_idb:          # blocks between the section header and the interface description (only DSBs / raw blocks make sense there)
+        if it[0] == "dsb":
+            out += pcapng_block(10, struct.pack(e + "II", 0x544C534B, len(it[1])) + it[1], e)
+        elif it[0] == "raw":
+            out += pcapng_block(it[1], it[2], e)
     out += pcapng_block(1, idb, e)
     for it in items:
         if it[0] == "pkt":
